@@ -29,7 +29,7 @@ namespace gs
         gstuff_autorecv_v1 r;
         uint8_t *buf_;
         int cap_;
-        void reinit() override
+        void reinit(int) override
         {
             // The legacy set-up procedure is "zeroed object, then setbuf" (see the constructor): setbuf alone resets line
             // and crc but leaves `state` as it is, so it is not a re-initialisation by itself.
